@@ -13,8 +13,8 @@ import skel
 
 
 def prove(*f):
-    s = z3.Solver(); s.set('timeout', 30000); s.add(*f)
-    return s.check() == z3.unsat
+    import zutil
+    return zutil.check(*f) == z3.unsat
 
 
 def run(funcs, results):
